@@ -24,6 +24,10 @@ structure MachineOK (c : Ctx) (fm : List FirstSet) (m : Machine) : Prop where
   done : ∀ s, s < m.states.length → ∀ x ∈ m.states.getD s [], ∀ X, symRightOfDot c x = some X →
     ∃ t', (⟨s, t', X⟩ : Transition) ∈ m.transitions ∧
       ∀ y ∈ transitionItems c (m.states.getD s []) X, y ∈ m.states.getD t' []
+  hasKernel : ∀ t ∈ m.transitions, ∃ y ∈ m.states.getD t.to [], 1 ≤ y.dot
+  zcore : ∀ y ∈ m.states.getD m.start [], CReach c fm (fun p => p = (c.numRules, 0)) (coreOf y)
+  tcore : ∀ t ∈ m.transitions, ∀ y ∈ m.states.getD t.to [],
+    CReach c fm (fun p => ∃ x ∈ transitionItems c (m.states.getD t.frm []) t.sym, coreOf x = p) (coreOf y)
 
 theorem machineOK_of_builder {c : Ctx} {fm : List FirstSet} {b : Builder} {m : Machine}
     (inv : BInv c fm (fun _ _ => False) b) (hq : b.queue = [])
@@ -41,7 +45,10 @@ theorem machineOK_of_builder {c : Ctx} {fm : List FirstSet} {b : Builder} {m : M
       aug := ?_
       trans := ?_
       func := ?_
-      done := ?_ }
+      done := ?_
+      hasKernel := ?_
+      zcore := by rw [iso.start, iso.state 0 inv.nonempty]; exact inv.zcore
+      tcore := ?_ }
   · intro s hs'
     obtain ⟨i, hi, rfl⟩ := iso.surj s hs'
     rw [iso.state i hi]; exact inv.good i hi
@@ -78,6 +85,19 @@ theorem machineOK_of_builder {c : Ctx} {fm : List FirstSet} {b : Builder} {m : M
       refine ⟨renum b j, (iso.trans _).mpr ⟨_, hj, rfl⟩, ?_⟩
       rw [iso.state j ok.to]
       exact hsub
+  · intro t' ht'
+    obtain ⟨t, ht, rfl⟩ := (iso.trans t').mp ht'
+    have ok := inv.trans t ht
+    simp only
+    rw [iso.state _ ok.to]
+    exact ok.hasKernel
+  · intro t' ht' y hy
+    obtain ⟨t, ht, rfl⟩ := (iso.trans t').mp ht'
+    have ok := inv.trans t ht
+    simp only at hy ⊢
+    rw [iso.state _ ok.to] at hy
+    rw [iso.state _ ok.frm]
+    exact (inv.tcore t ht (coreOf y)).mp ⟨y, hy, rfl⟩
 
 /-- **the automaton builder, every grammar**: whenever `validated_ast_to_machine` returns a machine, it is a
 well-formed LALR-style automaton in the sense of `MachineOK`, w.r.t. a FIRST table that is closed under the
